@@ -141,7 +141,7 @@ def main(argv: Sequence[str] = None) -> int:
         if args.command == "find":
             for match in finditer(args.pattern, source):
                 print(
-                    f"{filename}:{match.lineno}:{match.col_offset}: {match.string.splitlines()[0]}"
+                    f"{filename}:{match.lineno}:{match.col_offset}: {(match.string.splitlines() or [''])[0]}"
                 )
 
         elif args.command == "replace":
